@@ -54,7 +54,10 @@ KeepBox(x) == Quota = 1 \/ H(<<x.M, x.K, x.N>>, x.lt, x.rt, 5) % Quota = 0
 \* alone and mixed with small extents
 Edge  == {16, 17, 24, 25}
 Small == {1, 3, 5, 8, 12, 13}
+\* wide-vector remainders of the unmasked kernel: V = 8 / 16 with N % V <= 1 and a row class m1 (M >= 2V, M mod 8 in 4..7)
+WideShapes == UNION { { <<m, 5, n>>, <<m, m, n>>, <<m, n + 2, n>> } : m \in {20, 23, 36, 39}, n \in {9, 17, 25, 33} }
 EdgeShapes == { s \in (Edge \cup Small) \X (Edge \cup Small) \X (Edge \cup Small) : s[1] \in Edge \/ s[2] \in Edge \/ s[3] \in Edge }
+              \cup WideShapes
 EdgeCases == { Case(s, lt, rt, TypeSeq[(H(s, lt, rt, 4) % 4) + 1], "edge") : s \in EdgeShapes, lt \in Tags, rt \in Tags }
 KeepEdge(x) == EQuota = 1 \/ H(<<x.M, x.K, x.N>>, x.lt, x.rt, 6) % EQuota = 0
 
@@ -125,7 +128,7 @@ ClassesOf(x, isa) ==
            r \in RowTiles(x.M, V, 0), cc \in ColTiles(x.N, V, NumCols(x.M, x.N, V, 0), mk) }
 Wanted(isa) == { <<FALSE, rc, cc>> : rc \in {"m0", "m1"}, cc \in {"n0", "n1", "scalar"} }
                \cup (IF isa = "sse2" THEN {} ELSE { <<TRUE, "m1", cc>> : cc \in {"n1", "mask"} })
-PlanReachesEveryClippedClass ==
+ASSUME PlanReachesEveryClippedClass ==
     \A isa \in {"sse2", "avx2", "avx512"} :
         Wanted(isa) \subseteq UNION { ClassesOf(x, isa) : x \in { y \in Cases : Prim(y.T) } }
 =======================================================================================
